@@ -916,3 +916,70 @@ pub fn merge_outputs() -> Vec<Universe> {
     graphs.sort_by_key(|g| (g.n(), g.edges.len()));
     vec![Universe { label: "merge".into(), graphs }]
 }
+
+/// trees of Ephemerals with one long branch: `r:E -> m1:E -> ... -> md:E -> o1:O <- x:Always` (d = 2, 3)
+/// and a short one `r -> o0:O <- y:Always`; whether r is needed is decided by looking through d
+/// validated Ephemerals, and which Always job finishes first decides when
+pub fn eph_deep_trees() -> Vec<Universe> {
+    let mut out = Vec::new();
+    for d in 2..=3usize {
+        for short_via_eph in [false, true] {
+            let mut jobs = vec![JobDef::new("r", Kind::E)];
+            let mut edges = Vec::new();
+            for i in 0..d {
+                jobs.push(JobDef::new(&format!("m{}", i + 1), Kind::E));
+                edges.push((i, i + 1));
+            }
+            let o1 = jobs.len();
+            jobs.push(JobDef::new("o1", Kind::O));
+            edges.push((d, o1));
+            let x = jobs.len();
+            jobs.push(JobDef::new("x", Kind::A));
+            edges.push((x, o1));
+            let mut from = 0;
+            if short_via_eph {
+                let c = jobs.len();
+                jobs.push(JobDef::new("c", Kind::E));
+                edges.push((0, c));
+                from = c;
+            }
+            let o0 = jobs.len();
+            jobs.push(JobDef::new("o0", Kind::O));
+            edges.push((from, o0));
+            let y = jobs.len();
+            jobs.push(JobDef::new("y", Kind::A));
+            edges.push((y, o0));
+            let edges = edges.into_iter().map(|(u, dn)| Edge { up: u, down: dn, read: true, parts: vec![] }).collect();
+            out.push(Universe {
+                label: format!("ephdeep{}{}", d, if short_via_eph { "e" } else { "" }),
+                graphs: vec![Graph { jobs, edges }],
+            });
+        }
+    }
+    out
+}
+
+/// a multi-output job with three outputs whose shared outputs are not the first one:
+/// `x:Always -> M`, M = `p:::q` or `o:::p:::q`, `d` reads p, `c` reads q
+pub fn rename3() -> Vec<Universe> {
+    let mut graphs = Vec::new();
+    for m_id in ["p:::q", "o:::p:::q"] {
+        for has_d in [true, false] {
+            for has_c in [false, true] {
+                let mut jobs = vec![JobDef::new("x", Kind::A), JobDef::new(m_id, Kind::O)];
+                let mut edges = vec![Edge { up: 0, down: 1, read: true, parts: vec![] }];
+                if has_d {
+                    jobs.push(JobDef::new("d", Kind::O));
+                    edges.push(Edge { up: 1, down: jobs.len() - 1, read: true, parts: vec!["p".into()] });
+                }
+                if has_c {
+                    jobs.push(JobDef::new("c", Kind::O));
+                    edges.push(Edge { up: 1, down: jobs.len() - 1, read: true, parts: vec!["q".into()] });
+                }
+                graphs.push(Graph { jobs, edges });
+            }
+        }
+    }
+    graphs.sort_by_key(|g| (g.n(), g.edges.len()));
+    vec![Universe { label: "rename3".into(), graphs }]
+}
